@@ -394,7 +394,23 @@ def _spec_max_val(spec):
     return 3.0
 
 
-def resolve_symbol(sym, coord, knot_index, spec, spline):
+def _support_edges(model_plain, spec):
+    """Per-coordinate support boundaries of a named family, read from the real model: (lo, hi) arrays or None."""
+    if spec.get("kind") != "named":
+        return None
+    name = spec.get("name")
+    try:
+        if name == "Uniform":
+            return np.asarray(model_plain.minval, np.float32).reshape(-1), np.asarray(model_plain.maxval, np.float32).reshape(-1)
+        if name in ("Exponential", "LogNormal"):
+            d = max(1, int(np.prod(model_plain.shape)))
+            return np.zeros(d, np.float32), np.full(d, np.float32(1e2))
+    except Exception:  # noqa: BLE001
+        return None
+    return None
+
+
+def resolve_symbol(sym, coord, knot_index, spec, spline, edges=None):
     """Boundary-directed value for one coordinate of a fault row (float32)."""
     import jax.numpy as jnp
 
@@ -402,6 +418,8 @@ def resolve_symbol(sym, coord, knot_index, spec, spline):
     lo, hi = _spec_interval(spec)
     if spline is not None:
         lo, hi = spline[0]
+    if edges is not None:
+        lo, hi = float(edges[0][coord % len(edges[0])]), float(edges[1][coord % len(edges[1])])
     mv = _spec_max_val(spec)
     deep = spec["kind"] in ("flow", "scan_vspline") or (spec["kind"] in ("bnaf", "tri_spline") and spec.get("mode") != "single")
     nudge = 0
@@ -462,12 +480,13 @@ def make_data(world, model_plain):
     fault_rows = []
     if d.get("fault_rows"):
         spline = _first_spline(model_plain)
+        edges = _support_edges(model_plain, world["model"])
         for fr in d["fault_rows"]:
             pos = fr["pos"] % n
             row = x[pos].reshape(-1).copy()
             for cj, sym in zip(fr["coords"], fr["symbols"], strict=True):
                 cj = cj % max(1, row.size)
-                row[cj] = resolve_symbol(sym, cj, fr.get("knot_index", 0), world["model"], spline)
+                row[cj] = resolve_symbol(sym, cj, fr.get("knot_index", 0), world["model"], spline, edges)
             x[pos] = row.reshape(shape)
             fault_rows.append(x[pos].copy())
     return x, cond, fault_rows
